@@ -216,6 +216,18 @@ func genC02(tier, out string, sum *Summary) {
 			sum.direct("spec-example", c.expr, vr, "expected "+toJSON(c.want)+", got "+describe(o))
 		}
 	}
+	// a fault in every argument position of every built-in and arity: the error of the argument is the outcome
+	for _, af := range argFaultFamily() {
+		o := run(af.expr, af.doc, false)
+		sum.count("arg-fault/" + o.Kind)
+		want := af.want
+		if af.fn == "not_null" {
+			want = "" // lazy: arguments after the first non-null one are not evaluated
+		}
+		if want != "" && !(o.Kind == "err" && len(o.Cats) == 1 && o.Cats[0] == want) {
+			sum.direct("arg-fault", af.expr, af.doc, "an argument fails with "+want+"; the call must fail the same way, got "+describe(o))
+		}
+	}
 	// to_number on text that is, or nearly is, a JSON number: a number exactly for the JSON number grammar
 	// (no leading zeros, no bare exponent, no surrounding blanks, none of the words other parsers accept)
 	for _, x := range numberish(tier) {
